@@ -6,7 +6,7 @@
 From Coq Require Import ZArith List Bool Lia.
 From PV Require Import Util.ListSet Util.Sumset BLS.Model BLS.Den Layout.Types
   Rules.Names Rules.NamesSpec Rules.NamesProofs Rules.Defn Rules.Accept Rules.Spec
-  Rules.ProofsLocal Rules.ProofsRun Rules.Proofs Rules.ProofsExtra Rules.Boundaries.
+  Rules.ProofsLocal Rules.ProofsRun Rules.Proofs Rules.ProofsExtra Rules.Boundaries Rules.ExtentLayout.
 Import ListNotations.
 Open Scope Z_scope.
 
@@ -112,6 +112,27 @@ Theorem C05_extent_longest : forall e i b z, wf (bls (inner_ty e i b)) ->
   (extent (inner_ty e i b) <= z <-> forall x, Den (bls (inner_ty e i b)) x -> x <= z).
 Proof. exact extent_longest. Qed.
 Print Assumptions C05_extent_longest.
+
+(* ... and unconditionally for a section that obeys the other rules, given well-formed dependencies (C02 layout
+   theorems): the extent rule says "z is a multiple of 8 and bounds every possible serialized length of the schema";
+   the bound itself (the longest representation) is a possible length and a multiple of 8 *)
+Theorem C05_extent_rule : forall e i depr sec z,
+  env_wf e -> Forall (StmtOK e i) sec ->
+  Forall (AttrPlacementOK e i depr (negb (has_dir DUnion sec))) (attrs_of sec) ->
+  (has_dir DUnion sec = true -> 2 <= Z.of_nat (length (layout_fields e i (attrs_of sec)))) ->
+  Z.of_nat (length (layout_fields e i (attrs_of sec))) <= 2 ^ 64 ->
+  let t := inner_ty e i (summary false sec) in
+  ((z mod 8 = 0 /\ extent t <= z) <-> ((8 | z) /\ forall x, Den (bls t) x -> x <= z))
+  /\ Den (bls t) (extent t) /\ (8 | extent t).
+Proof. exact extent_rule_lengths. Qed.
+Print Assumptions C05_extent_rule.
+
+Theorem C05_valid_extent : forall e i first depr k sec z,
+  env_wf e -> SectionRules e i first depr k sec -> mode_of sec = MDelim z ->
+  Z.of_nat (length (layout_fields e i (attrs_of sec))) <= 2 ^ 64 ->
+  (8 | z) /\ forall x, Den (bls (inner_ty e i (summary false sec))) x -> x <= z.
+Proof. exact valid_extent_bounds. Qed.
+Print Assumptions C05_valid_extent.
 
 (* the request / response schemas of a service are named Name.Request / Name.Response: 8 / 9 more characters count
    against the limit of 255 *)
